@@ -297,7 +297,7 @@ def run_check(prop, tier, verif_seed, runs=None, workers=None):
     n_audit = {"quick": 24, "thorough": 200}[tier]
     audit_mod = max(1, runs // n_audit)
     n_fresh = {"quick": 8, "thorough": 64}[tier]
-    wall = {"quick": 900, "thorough": 7200}[tier]
+    wall = {"quick": 420, "thorough": 7200}[tier]
 
     chunk = max(1, min(2000, runs // (workers * 8) or 1))
     tasks = [(prop, tier, verif_seed, s, min(runs, s + chunk), audit_mod, wall)
